@@ -90,6 +90,17 @@ func c17Run(w *W, c Case) {
 			}
 			w.Eval(2)
 		}
+		// order independence on the Taoist / Buddhist objects: each accessor asked first on a fresh object answers as on the
+		// used one (leap-month days always: signs are easy to lose there)
+		if lm < 0 || j%11 == 0 {
+			for _, d := range firstCallDiffs(func() interface{} { return solarOf(st).GetLunar().GetTao() }) {
+				w.Violatef("predicate", "order/Tao."+strings.SplitN(d, " ", 2)[0]+"@"+key, "Tao at %s: %s", key, d)
+			}
+			for _, d := range firstCallDiffs(func() interface{} { return solarOf(st).GetLunar().GetFoto() }) {
+				w.Violatef("predicate", "order/Foto."+strings.SplitN(d, " ", 2)[0]+"@"+key, "Foto at %s: %s", key, d)
+			}
+			w.Eval(2)
+		}
 		// round trip through the constructors with the numbers reported
 		var t2 *calendar.Tao
 		var f2 *calendar.Foto
